@@ -181,6 +181,10 @@ class TransactionalizedFIFO(Elaboratable):
         with m.Else():
             m.d.comb += read_port.addr.eq(current_read_pointer)
 
+        # If we're discarding our un-finalized reads, we'll be back at our committed position next cycle.
+        with m.If(self.read_discard):
+            m.d.comb += read_port.addr.eq(committed_read_pointer)
+
 
         # If we're reading from our the fifo, update our current read position.
         with m.If(self.read_en & ~self.empty):
